@@ -52,6 +52,8 @@ WITNESS = {
   'exec_semantics': ('samlang-compiler', 'crates/samlang-compiler/src/lib.rs', 'wx/witness/samlang_compiler_exec.rs', 'verif_witness_search_exec_semantics'),
   'exec_optimizer': ('samlang-compiler', 'crates/samlang-compiler/src/lib.rs', 'wx/witness/samlang_compiler_exec.rs', 'verif_witness_search_exec_optimizer'),
   'tsstmt': ('samlang-compiler', 'crates/samlang-compiler/src/lib.rs', 'wx/witness/samlang_compiler_exec.rs', 'verif_witness_search_exec_backends'),
+  'fmtterm': ('samlang-printer', 'crates/samlang-printer/src/lib.rs', 'wx/witness/samlang_printer_modules.rs', 'verif_witness_search_formatter_terminates'),
+  'fmtserver': ('samlang-services', 'crates/samlang-services/src/server_state.rs', 'wx/witness/samlang_services_server_state.rs', 'verif_witness_search_format_requests'),
   'nocrash': ('samlang-compiler', 'crates/samlang-compiler/src/lib.rs', 'wx/witness/samlang_compiler_lib.rs', 'verif_witness_search_no_crash'),
   'loctree': ('samlang-parser', 'crates/samlang-parser/src/lib.rs', 'wx/witness/samlang_parser_locations.rs', 'verif_witness_search_location_tree'),
   'printmods': ('samlang-printer', 'crates/samlang-printer/src/lib.rs', 'wx/witness/samlang_printer_modules.rs', 'verif_witness_search_modules'),
